@@ -145,6 +145,40 @@ def run_case(case, ctx):
                 orig = os.path.join(d, "orig-%d.pyc" % (len(written) - 1))
                 with open(orig, "wb") as f:
                     f.write(data)
+                # the header arguments a caller may pass (first program of the block): every combination either is
+                # refused or gives a well-formed header for the target version, followed by the same payload
+                if pr is case["progs"][0] and kind == "portable":
+                    import datetime as _dt
+
+                    TS = [None, 0, 1, 0x5F000000, 2 ** 32 - 1, 2 ** 32 + 7, -1, _dt.datetime(2020, 1, 2, 3, 4, 5), 1.5]
+                    FS = [0, None, 1, 0x1234, 2 ** 32 - 1, 2 ** 32 + 7, -1]
+                    for ti, ts in enumerate(TS):
+                        for fi, fs in enumerate(FS):
+                            ctx.count("header_argument_combinations")
+                            outq = os.path.join(d, "hdr-%d-%d.pyc" % (ti, fi))
+                            try:
+                                write_bytecode_file(outq, co, magic_int, ts, fs)
+                            except Exception:
+                                ctx.count("header_arguments_refused")
+                                continue
+                            with open(outq, "rb") as f:
+                                o2 = f.read()
+                            wh = "%s ts=%r filesize=%r" % (pr["id"], ts, fs)
+                            bad = None
+                            if o2[:4] != data[:4]:
+                                bad = "magic"
+                            elif ver >= (3, 7) and o2[4:8] != b"\0\0\0\0":
+                                bad = "flags"
+                            elif isinstance(ts, int) and ts and struct.unpack("<I", o2[ts_off:ts_off + 4])[0] != ts:
+                                bad = "timestamp"
+                            elif isinstance(ts, _dt.datetime) and struct.unpack("<I", o2[ts_off:ts_off + 4])[0] != int(ts.timestamp()):
+                                bad = "timestamp"
+                            elif "size" in form and struct.unpack("<I", o2[ts_off + 4:ts_off + 8])[0] != fs:
+                                bad = "size"
+                            elif o2[hl:] != out[hl:]:
+                                bad = "payload-or-header-length"
+                            if bad:
+                                ctx.violation("%s:header-arguments:%s" % (vtag, bad), "written header %s, payload equal %r (%s)" % (hx(o2[:hl + 4]), o2[hl:] == out[hl:], wh))
         if not written:
             return
         # (a) the target interpreter unmarshals the payload
